@@ -301,6 +301,51 @@ func ruleC05(c *Ctx, r *Report) {
 	}
 	// ---- R4
 	requiredExemptions(c, r, "C05-R4", [][]string{{"CoreOperators", "$binary", "subType"}})
+	// ... and the scalar step keeps $binary.subType in every kind of stage: the table entry is
+	// only consulted for core stages (the Atlas Search lookup never reaches CoreOperators), so
+	// the step itself must return the value unchanged when the last two path elements are
+	// $binary / subType, before anything that depends on the stage kind
+	{
+		found := false
+		var why string
+		allInstrs(sf, func(i ssa.Instruction) {
+			ret, ok := i.(*ssa.Return)
+			if !ok {
+				return
+			}
+			v := resolveLocal(ret.Results[0])
+			if p.Of(v)&oIN == 0 {
+				return
+			}
+			hasSub, hasBin, stageDep := false, false, false
+			for _, a := range p.atomsAt(ret.Block()) {
+				if a.Kind == "strconst" && a.Pol {
+					switch {
+					case a.Name == "subType" && pathPosition(a.X) == "last":
+						hasSub = true
+					case a.Name == "$binary" && pathPosition(a.X) == "second-to-last":
+						hasBin = true
+					}
+				}
+				if a.Kind == "param" || a.Kind == "ok" || a.Kind == "tbl" {
+					stageDep = true
+				}
+			}
+			if hasSub && hasBin {
+				if stageDep {
+					why = "the subType pass-through depends on a stage-kind parameter or a table lookup"
+				} else {
+					found = true
+				}
+			}
+		})
+		if why == "" {
+			why = "no return of the scalar step hands the value back under (last key == subType, key before == $binary) alone"
+		}
+		r.Check(found, "C05-R4", sf.Name()+":binary-subtype-kept-in-every-stage", c.Pos(sf.Pos()),
+			"the scalar step returns a $binary.subType value unchanged on key context alone, independently of the stage kind",
+			"the BSON binary subtype is kept only where the core operator table is consulted: "+why+" - inside $search / $vectorSearch stages it is replaced by the placeholder text and extended-JSON-aware tools reject the line")
+	}
 }
 
 // pathPosition: is v the last / second-to-last element of a key-path slice?
